@@ -164,7 +164,7 @@ fn c20_main(tier: Tier) -> i32 {
             "max_preemptions_used": maxp,
             "evaluations": schedules,
             "distinct_nontrivial": rr.nontrivial,
-            "rule": "every schedule (<= bound preemptions) of {receive thread, environment script, GUI actor} for each of the environment scripts = 9 packings of 3 bitmap PDUs into TLS records / TCP segments (one per record, two+one, three in one, a PDU across two records, a record across two segments, with a pause, with update-less PDUs of both length forms riding along, with a 20 kB second PDU spanning two records, with a re-activation after the first PDU whose server PDUs are packed two and four to a record) x {no end, disconnect ultimatum, close_notify, abrupt close, undecodable PDU of RdpError kind, undecodable PDU of I/O kind, header-only TPKT frame} at every position 0..3. states/transitions = distinct abstract configurations (runnable set, running task, queue length, bytes consumed, closed flag, events forwarded, dead-select count, script and GUI positions) and (configuration, chosen task) edges observed at scheduling points, summed over scripts.",
+            "rule": "every schedule (<= bound preemptions) of {receive thread, environment script, GUI actor} for each of the environment scripts = 9 packings of 3 bitmap PDUs into TLS records / TCP segments (one per record, two+one, three in one, a PDU across two records, a record across two segments, with a pause, with update-less PDUs of both length forms riding along, with a second PDU of 3 + 16384 bytes spanning two records, with a re-activation after the first PDU whose server PDUs are packed two and four to a record) x {no end, disconnect ultimatum, close_notify, abrupt close, undecodable PDU of RdpError kind, undecodable PDU of I/O kind, header-only TPKT frame, data on the MCS user channel} at every position 0..3. states/transitions = distinct abstract configurations (runnable set, running task, queue length, bytes consumed, closed flag, events forwarded, dead-select count, script and GUI positions) and (configuration, chosen task) edges observed at scheduling points, summed over scripts.",
             "exhaustive": true,
             "violations_detail": viol_json,
             "known_findings_matched": known,
